@@ -993,6 +993,8 @@ class ModelBuilder:
     def __init__(self) -> None:
         self._pending_depends: list[tuple[Task, list[Any]]] = []  # Store (task, depends_list) for later resolution
         self._pending_precedes: list[tuple[Task, list[Any]]] = []  # Store (task, precedes_list) for later resolution
+        # (id(property), attribute) -> indices of the scenarios that were given a value of their own
+        self._scenario_values: dict[tuple[int, str], set[int]] = {}
 
     def build(self, data: dict[str, Any]) -> Project:
         """Build a Project from parsed data."""
@@ -1400,8 +1402,7 @@ class ModelBuilder:
                         obj[("timezone", scIdx)] = value
                 elif key == "effort":
                     # Set for all scenarios (no prefix means apply to all)
-                    for scIdx in range(obj.project.scenarioCount()):
-                        obj[("effort", scIdx)] = value
+                    self._set_plain_attribute(obj, "effort", value)
                 elif key == "depends":
                     # Store for later resolution (after all tasks created)
                     self._pending_depends.append((obj, value))  # type: ignore[arg-type]
@@ -1415,12 +1416,10 @@ class ModelBuilder:
                         obj[("allocate", scIdx)] = value
                 elif key == "start":
                     # Set for all scenarios
-                    for scIdx in range(obj.project.scenarioCount()):
-                        obj[("start", scIdx)] = value
+                    self._set_plain_attribute(obj, "start", value)
                 elif key == "end":
                     # Set for all scenarios
-                    for scIdx in range(obj.project.scenarioCount()):
-                        obj[("end", scIdx)] = value
+                    self._set_plain_attribute(obj, "end", value)
                 elif key == "milestone":
                     # Set for all scenarios
                     for scIdx in range(obj.project.scenarioCount()):
@@ -1445,7 +1444,7 @@ class ModelBuilder:
                     scenario_idx = self._get_scenario_index(obj.project, scenario_id)
                     if scenario_idx is not None and attr_data and isinstance(attr_data, tuple):
                         attr_key, attr_value = attr_data
-                        obj[(attr_key, scenario_idx)] = attr_value
+                        self._set_scenario_attribute(obj, attr_key, scenario_idx, attr_value)
                 elif key == "journalentry":
                     # Create a journal entry for this task
                     self._create_journal_entry(obj, value)  # type: ignore[arg-type]
@@ -1611,6 +1610,39 @@ class ModelBuilder:
                 else:
                     with contextlib.suppress(ValueError, KeyError, AttributeError):
                         obj[key] = value
+
+    def _set_plain_attribute(self, obj: Any, key: str, value: Any) -> None:
+        """Set an attribute written without scenario prefix: it applies to every scenario
+        that has no value of its own (wherever in the task body that value is written)."""
+        own = self._scenario_values.setdefault((id(obj), key), set())
+        scenarios = list(obj.project.scenarios)
+        for scIdx in range(obj.project.scenarioCount()):
+            # A scenario keeps a value of its own and the one it inherits from a parent scenario
+            node = scenarios[scIdx] if scIdx < len(scenarios) else None
+            overridden = False
+            while node is not None:
+                if scenarios.index(node) in own:
+                    overridden = True
+                    break
+                node = node.parent
+            if not overridden:
+                obj[(key, scIdx)] = value
+
+    def _set_scenario_attribute(self, obj: Any, key: str, scenario_idx: int, value: Any) -> None:
+        """Set 'scenario:attribute value'. Nested scenarios inherit the value of their
+        parent scenario unless they have a value of their own."""
+        own = self._scenario_values.setdefault((id(obj), key), set())
+        own.add(scenario_idx)
+        obj[(key, scenario_idx)] = value
+        scenarios = list(obj.project.scenarios)
+        pending = list(scenarios[scenario_idx].children)
+        while pending:
+            child = pending.pop()
+            child_idx = scenarios.index(child)
+            if child_idx in own:
+                continue  # has its own value; so do the scenarios below it
+            obj[(key, child_idx)] = value
+            pending.extend(child.children)
 
     def _get_scenario_index(self, project: Project, scenario_id: str) -> Optional[int]:
         """Get the index of a scenario by its ID."""
